@@ -26,6 +26,7 @@ import (
 )
 
 type tmHeader = tmproto.Header
+type sdkContext = sdk.Context
 
 const ChainID = "sao-sim-1"
 const Denom = "sao"
